@@ -1,68 +1,163 @@
 """C14 -- callbacks and extern "Python" pass values exactly and contain errors.
 
-Per generated module: for ~30 random signatures a C trampoline
-`R call_k(R (*cb)(A...), A...)` and an extern "Python" function with a C
-caller.  The Python function records the argument tuple it receives (must be
-the tuple handed to the trampoline) and returns a value that must come back
-unchanged.  Bodies: normal / raising / returning an unconvertible value;
-configuration: no error value, error=v, onerror returning a value / None /
-raising.  The C caller must receive the declared error value (or onerror's
-value) and no exception may escape into the caller.
+Per generated module: for ~30 signatures (a systematic share `T f(T)` for every
+supported type T plus random ones) a C trampoline `R call_k(R (*cb)(A...), A...)`
+and an extern "Python" function (declared `extern "Python"`, `extern "Python+C"`
+or inside an `extern "Python" { }` block) with a C caller.  The Python function
+records the argument tuple it receives (must be the tuple handed to the
+trampoline) and returns a value that must come back unchanged.
+
+Bodies: normal (result given in its native Python form, as a cdata, as a
+dict/list/tuple initializer, as an initializer that names only the first n
+fields -- the other fields must then be zero, as with ffi.new() and with
+by-value struct arguments; mechanism 'partial-initializer-result-indeterminate')
+/ raising (Exception and BaseException subclasses)
+/ returning an unconvertible value (foreign object, out-of-range integer, wrong
+type, partly valid struct initializer, ...) / called with an argument that
+cannot be converted to a Python object (wide character > 0x10FFFF).
+Configuration: no error value, error=v, onerror returning a value / None /
+an unconvertible value / raising; with and without error= next to onerror=.
+The C caller must receive the declared error value (or onerror's value), no
+exception may escape into the caller, the error must be reported (to onerror
+with the raised exception, else to sys.unraisablehook) and a handled error is
+not reported a second time.
+
+Entry points: ffi.callback() of a compiled FFI (direct, decorator, positional
+error/onerror, 'R(*)(A)' spelling, ctype object) and of an in-line cffi.FFI()
+(api.py; direct and decorator); ffi.def_extern(name=...), def_extern() taking
+the name from __name__, positional arguments.  Invocation from compiled C, and
+from Python through libffi (cb(...) / lib.ep_k(...)).  Histories: several
+invocations of one callback object / one def_extern registration with
+different bodies, and a nested invocation from inside the Python function.
 """
-import os, sys, random, struct
+import os, sys, random
 from vlib import core, modbuild, gen
 
-RULE = ("case = (signature, kind ffi.callback|extern \"Python\", scenario, argument tuple); "
-        "signatures over all integer sizes/signs, _Bool, char, float, double, pointers, struct by "
-        "value (args and result; 2/8/16/40-byte structs of INTEGER, SSE and MEMORY class, unions), "
-        "long double, wchar_t, enum, void result; scenarios = {normal, raises, bad-return} x {no "
-        "error value, error=v, onerror->value, onerror->None, onerror raises}; distinct = "
-        "(signature, kind, scenario, values); non-trivial = at least one argument or a non-void "
-        "result")
+RULE = ("case = (signature, kind ffi.callback|extern \"Python\", entry point, invocation path, scenario, "
+        "argument tuple); signatures: `T f(T)` for every type T once per run plus random ones over all "
+        "integer sizes/signs, _Bool, char, wchar_t/char16_t/char32_t, float, double, long double, "
+        "float/double _Complex (extern \"Python\" only), data/void/char/struct/function pointers, "
+        "signed and unsigned enums, struct by value (args and result; 2/8/12/16/40-byte structs of "
+        "INTEGER, SSE and MEMORY class, nested struct, array field, bitfields, unions), void result; "
+        "scenarios = {normal (native / cdata / full and partial initializer forms of the result), raises (Exception / "
+        "BaseException), bad-return (object / overflow / wrong type / partial initializer), "
+        "unconvertible argument} x {no error value, error=v, onerror->value, onerror->None, onerror "
+        "raises, onerror->unconvertible}; entry points = compiled ffi.callback direct / decorator / "
+        "positional / pointer spelling / ctype, in-line FFI.callback direct / decorator, def_extern "
+        "name= / from __name__ / positional; invoked from C or from Python; 1-3 invocations per "
+        "callback object, optionally one nested; distinct = (signature, kind, entry, path, scenario, "
+        "values); non-trivial = at least one argument or a non-void result")
 ASSUMPTIONS = ["values are chosen exactly representable in the declared C types (conversion exactness is C03/C05's business)",
-               "'no exception escapes' is observed as: the C trampoline call returns normally to Python and sys.unraisablehook / onerror receive the exception"]
+               "'no exception escapes' is observed as: the C trampoline call returns normally to Python and sys.unraisablehook / onerror receive the exception",
+               "an onerror handler that returns an unconvertible value counts as returning no value: the declared error value is expected (only values that are rejected before anything is written are used there)",
+               "a struct result given as an initializer that names only some fields means: the other fields are zero (what ffi.new() and by-value struct arguments do)",
+               "an argument that cannot be converted to a Python object (wchar_t/char32_t > 0x10FFFF) is an error of the call like a raising body: error value, reported, Python function not run"]
 
 INTS = [('signed char', 1, True), ('unsigned char', 1, False), ('short', 2, True),
         ('unsigned short', 2, False), ('int', 4, True), ('unsigned int', 4, False),
         ('long', 8, True), ('unsigned long long', 8, False), ('int8_t', 1, True),
-        ('uint16_t', 2, False), ('int64_t', 8, True), ('size_t', 8, False)]
-INTS_X = INTS + [('enum en', 4, False)]
-# aggregates passed and returned by value: (fields as (name, C type, 'i'|'f'|bytes-length))
+        ('uint16_t', 2, False), ('int64_t', 8, True), ('size_t', 8, False),
+        ('long long', 8, True), ('unsigned long', 8, False), ('int32_t', 4, True),
+        ('uint8_t', 1, False), ('uint32_t', 4, False), ('ssize_t', 8, True)]
+ENUMS = [('enum en', 4, False), ('enum es', 4, True)]
+INTS_X = INTS + ENUMS
+INTD = dict((n, (z, sg)) for (n, z, sg) in INTS_X)
+WCHARS = {'wchar_t': 4, 'char16_t': 2, 'char32_t': 4}
+FLOATS = ('float', 'double', 'long double')
+COMPLEX = ('float _Complex', 'double _Complex')
+PTRS = ['int *', 'void *', 'char *', 'struct pt *', 'fnp_t']
+# aggregates passed and returned by value: fields as (name, C type, kind) with kind
+# 'i' integer | 'f' float | n (unsigned char[n]) | 'S' nested aggregate | 'A:n' array of n
+# integers | 'B:n' bitfield of n bits
 AGGS = {
     'struct pt': [('a', 'int', 'i'), ('b', 'short', 'i'), ('c', 'double', 'f')],           # 16 bytes, INTEGER+SSE
     'struct sm': [('x', 'signed char', 'i'), ('y', 'unsigned char', 'i')],                  # 2 bytes
     'struct fl': [('f', 'float', 'f'), ('g', 'float', 'f')],                               # 8 bytes, SSE
     'struct big': [('l0', 'long', 'i'), ('l1', 'long', 'i'), ('d', 'double', 'f'),
                    ('l2', 'long', 'i'), ('z', 'signed char', 'i')],                        # 40 bytes, MEMORY
+    'struct ne': [('s', 'struct sm', 'S'), ('arr', 'short', 'A:2'), ('f', 'float', 'f')],   # 12 bytes, nested + array
+    'struct bf': [('a', 'int', 'B:3'), ('b', 'unsigned int', 'B:5'), ('c', 'int', 'i')],    # bitfields
     'union un': [('c', 'unsigned char', 12)],                                              # 16 bytes
     'union u8': [('c', 'unsigned char', 8)],                                               # 8 bytes
 }
-ARGT = [t[0] for t in INTS_X] + ['_Bool', 'char', 'float', 'double', 'int *', 'long double',
-                                 'wchar_t'] + sorted(AGGS) + ['struct pt']
+# not supported by libffi (documented NotImplementedError for ffi.callback() and for calls
+# through a function pointer); extern "Python" called from compiled C supports them
+NOFFI = set(['union un', 'union u8', 'struct bf']) | set(COMPLEX)
+ALLT = ([t[0] for t in INTS_X] + ['_Bool', 'char'] + sorted(WCHARS) + list(FLOATS) + list(COMPLEX) +
+        PTRS + sorted(AGGS))
+ARGT = ALLT + ['struct pt']
 RETT = ARGT + ['void']
-STRUCT = ('struct pt { int a; short b; double c; }; struct sm { signed char x; unsigned char y; }; '
+STRUCT = ('typedef int (*fnp_t)(int); '
+          'struct pt { int a; short b; double c; }; struct sm { signed char x; unsigned char y; }; '
           'struct fl { float f; float g; }; '
           'struct big { long l0; long l1; double d; long l2; signed char z; }; '
+          'struct ne { struct sm s; short arr[2]; float f; }; '
+          'struct bf { int a:3; unsigned int b:5; int c; }; '
           'union un { int i; double d; unsigned char c[12]; }; '
           'union u8 { int i; float f; unsigned char c[8]; }; '
-          'enum en { EN0, EN1 = 5, EN2 = 70000, EN3 = 0xFFFFFFFF };')
-SCEN = [(b, c) for b in ('normal', 'raises', 'badreturn')
-        for c in ('noerror', 'error', 'onerror_value', 'onerror_none', 'onerror_raises')]
+          'enum en { EN0, EN1 = 5, EN2 = 70000, EN3 = 0xFFFFFFFF }; '
+          'enum es { ESN = -70000, ES0 = 0, ES1 = 1, ESP = 0x7FFFFFFF };')
+BODIES = ('normal', 'raises', 'badreturn')
+CONFS = ('noerror', 'error', 'onerror_value', 'onerror_none', 'onerror_raises', 'onerror_bad')
+CB_ENTRIES = ['direct'] * 8 + ['deco'] * 3 + ['ptrsig'] * 2 + ['ctype'] * 2 + ['positional'] * 2 + \
+    ['inline'] * 2 + ['inline_deco'] * 1
+EP_ENTRIES = ['name'] * 5 + ['noname'] * 3 + ['positional'] * 2
+NSYS_MODS = 4        # the systematic `T f(T)` signatures are spread over the first modules
 
 
-def gen_sigs(seed, n):
+def noffi(s):
+    return any(t in NOFFI for t in s['args'] + [s['ret']])
+
+
+def libffi_call_bug(s, gpr_before):
+    """True if calling this signature FROM Python through libffi's ffi_call() would hit a bug of
+    the system's libffi 3.4.2 (x86-64 ffi_call_int copies the whole remaining size of a struct
+    into one GPR slot; when a struct of classes INTEGER+SSE lands in the last GPR, the copy runs
+    into the slot of xmm0 and replaces the first float/double argument).  Reproduced with ctypes
+    and no cffi at all: `double f(double, int, int, int, int, int, struct {int; short; double;})`
+    returns the struct's double.  Such signatures are only invoked from compiled C here."""
+    g, sse = gpr_before, 0
+    for a in s['args']:
+        if a in ('float', 'double'):
+            ng, ns = 0, 1
+        elif a in ('long double', 'struct big') or a in COMPLEX or a.startswith('union') or a == 'struct bf':
+            continue                # memory / x87 / not callable through libffi anyway
+        elif a == 'struct fl':
+            ng, ns = 0, 1
+        elif a in ('struct pt', 'struct ne'):
+            ng, ns = 1, 1
+        else:
+            ng, ns = 1, 0           # integers, characters, pointers, struct sm
+        if g + ng > 6 or sse + ns > 8:
+            continue                # passed on the stack
+        if ng and ns and g == 5:
+            return True
+        g, sse = g + ng, sse + ns
+    return False
+
+
+def gen_sigs(seed, n, sysl):
     rnd = random.Random(seed)
     sigs = []
     for k in range(n):
-        na = rnd.choice([0, 1, 1, 2, 3, 4, 6, 9])
-        sigs.append({'k': k, 'args': [rnd.choice(ARGT) for _ in range(na)],
-                     'ret': rnd.choice(RETT)})
+        if k < len(sysl):
+            T = sysl[k]
+            s = {'k': k, 'args': ['int'] if T == 'void' else [T], 'ret': T}
+        else:
+            na = rnd.choice([0, 1, 1, 2, 3, 4, 6, 9])
+            s = {'k': k, 'args': [rnd.choice(ARGT) for _ in range(na)], 'ret': rnd.choice(RETT)}
+        s['decl'] = rnd.choice(['plain', 'plain', 'plusc', 'block'])
+        sigs.append(s)
     return sigs
 
 
-def module_spec(d, seed, n, name):
-    sigs = gen_sigs(seed, n)
-    cdef, src = [STRUCT], ['#include <stdint.h>', '#include <stddef.h>', '#include <wchar.h>', STRUCT]
+def module_spec(d, seed, n, name, sysl=()):
+    sigs = gen_sigs(seed, n, list(sysl))
+    cdef, src = [STRUCT], ['#include <stdint.h>', '#include <stddef.h>', '#include <wchar.h>',
+                           '#include <uchar.h>', '#include <sys/types.h>', STRUCT]
+    # see PREREALIZE below
+    cdef.append('float _Complex c14_rfc(void); double _Complex c14_rdc(void);')
+    src.append('float _Complex c14_rfc(void) { return 0; } double _Complex c14_rdc(void) { return 0; }')
     for s in sigs:
         k, R = s['k'], s['ret']
         at = ', '.join(s['args']) or 'void'
@@ -70,84 +165,227 @@ def module_spec(d, seed, n, name):
         names = ', '.join('a%d' % i for i in range(len(s['args'])))
         cbp = '%s (*cb)(%s)' % (R, at)
         cdef.append('%s call_%d(%s%s%s);' % (R, k, cbp, ', ' if s['args'] else '', params))
-        cdef.append('extern "Python" %s ep_%d(%s);' % (R, k, at))
+        if s['decl'] == 'plusc':
+            cdef.append('extern "Python+C" %s ep_%d(%s);' % (R, k, at))
+        elif s['decl'] == 'block':
+            cdef.append('extern "Python" { %s ep_%d(%s); }' % (R, k, at))
+        else:
+            cdef.append('extern "Python" %s ep_%d(%s);' % (R, k, at))
         cdef.append('%s callep_%d(%s);' % (R, k, params or 'void'))
         ret = '' if R == 'void' else 'return '
         src.append('%s call_%d(%s%s%s) { %scb(%s); }' % (R, k, cbp, ', ' if s['args'] else '',
                                                         params, ret, names))
-        src.append('static %s ep_%d(%s);' % (R, k, at))
+        src.append('%s%s ep_%d(%s);' % ('' if s['decl'] == 'plusc' else 'static ', R, k, at))
         src.append('%s callep_%d(%s) { %sep_%d(%s); }' % (R, k, params or 'void', ret, k, names))
     return {'name': name, 'kind': 'api', 'cdef': '\n'.join(cdef), 'source': '\n'.join(src),
             'dir': d}, sigs
 
 
+# ---------------------------------------------------------------------------
+# value descriptors [kind, value, C type] (JSON-able, exactly representable)
+
+def gen_field(rnd, ft, fk):
+    if fk == 'i':
+        lo, hi = gen.int_range(*INTD[ft])
+        return rnd.choice([lo, hi, 0, 1, rnd.randint(lo, hi)])
+    if fk == 'f':
+        return rnd.choice([1.5, -3.25, 0.0, 1024.0] + ([1e100] if ft == 'double' else []))
+    if isinstance(fk, int):
+        return [rnd.randrange(256) for _ in range(fk)]
+    if fk == 'S':
+        return [gen_field(rnd, t, kk) for (_, t, kk) in AGGS[ft]]
+    if fk.startswith('A:'):
+        lo, hi = gen.int_range(*INTD[ft])
+        return [rnd.choice([lo, hi, 0, rnd.randint(lo, hi)]) for _ in range(int(fk[2:]))]
+    if fk.startswith('B:'):
+        bits = int(fk[2:])
+        lo, hi = (-(1 << (bits - 1)), (1 << (bits - 1)) - 1) if INTD[ft][1] else (0, (1 << bits) - 1)
+        return rnd.choice([lo, hi, 0, rnd.randint(lo, hi)])
+    raise ValueError(fk)
+
+
 def gen_val(rnd, T):
-    """JSON-able value descriptor for type T (exactly representable)"""
-    for (n, size, signed) in INTS_X:
-        if T == n:
-            lo, hi = gen.int_range(size, signed)
-            return ['int', rnd.choice([lo, hi, 0, 1, rnd.randint(lo, hi)])]
+    if T in INTD:
+        lo, hi = gen.int_range(*INTD[T])
+        return ['int', rnd.choice([lo, hi, 0, 1, -1 if lo < 0 else hi - 1, rnd.randint(lo, hi)]), T]
     if T == 'long double':
-        return ['float', rnd.choice([0.0, 1e300, -1.1, 0.5, rnd.uniform(-1e9, 1e9)]).hex()]
-    if T == 'wchar_t':
-        return ['str', rnd.choice([u'a', u'\x00', u'\xe9', u'\u1234', u'\U0001f600',
-                                   chr(rnd.randrange(32, 0xd800))])]
-    if T in AGGS and T != 'struct pt':
-        vals = []
-        for fn, ft, fk in AGGS[T]:
-            if fk == 'i':
-                size, signed = [(z, sg) for (n_, z, sg) in INTS if n_ == ft][0]
-                lo, hi = gen.int_range(size, signed)
-                vals.append(rnd.choice([lo, hi, 0, 1, rnd.randint(lo, hi)]))
-            elif fk == 'f':
-                vals.append(rnd.choice([1.5, -3.25, 0.0, 1024.0] + ([1e100] if ft == 'double' else [])))
-            else:
-                vals.append([rnd.randrange(256) for _ in range(fk)])
-        return ['struct', vals, T]
+        return ['float', rnd.choice([0.0, 1e300, -1.1, 0.5, rnd.uniform(-1e9, 1e9)]).hex(), T]
+    if T in WCHARS:
+        c = [u'a', u'\x00', u'\xe9', u'ሴ', u'￿', chr(rnd.randrange(32, 0xd800))]
+        if WCHARS[T] == 4:
+            c += [u'\U0001f600', u'\U0010ffff']
+        return ['str', rnd.choice(c), T]
+    if T in AGGS:
+        return ['struct', [gen_field(rnd, ft, fk) for (_, ft, fk) in AGGS[T]], T]
     if T == '_Bool':
-        return ['bool', rnd.choice([True, False])]
+        return ['bool', rnd.choice([True, False]), T]
     if T == 'char':
-        return ['bytes', bytes([rnd.randrange(256)]).hex()]
+        return ['bytes', bytes([rnd.choice([0, 0x7f, 0x80, 0xff, rnd.randrange(256)])]).hex(), T]
     if T == 'float':
-        return ['float', float(rnd.choice([0, 1.5, -2.25, 1024.0, rnd.randint(-2 ** 20, 2 ** 20) / 4.0])).hex()]
+        return ['float', float(rnd.choice([0, 1.5, -2.25, 1024.0, rnd.randint(-2 ** 20, 2 ** 20) / 4.0])).hex(), T]
     if T == 'double':
-        return ['float', rnd.choice([0.0, 1e300, -1.1, rnd.uniform(-1e9, 1e9)]).hex()]
-    if T == 'int *':
-        return ['ptr', rnd.choice([0, 8, rnd.getrandbits(47) & ~3])]
-    if T == 'struct pt':
-        return ['struct', [rnd.randint(-2 ** 31, 2 ** 31 - 1), rnd.randint(-2 ** 15, 2 ** 15 - 1),
-                           rnd.choice([1.5, -3.25, 1e100])], T]
+        return ['float', rnd.choice([0.0, 1e300, -1.1, 7.0, rnd.uniform(-1e9, 1e9)]).hex(), T]
+    if T in COMPLEX:
+        part = lambda: float(rnd.choice([0, 1.5, -2.25, 1024.0, rnd.randint(-2 ** 20, 2 ** 20) / 4.0]))
+        return ['complex', [part().hex(), part().hex()], T]
+    if T in PTRS:
+        return ['ptr', rnd.choice([0, 8, rnd.getrandbits(47) & ~3, 2 ** 64 - 16, rnd.getrandbits(64) & ~7]), T]
     raise ValueError(T)
+
+
+def gen_form(rnd, d, partial_ok=False):
+    """the Python form in which the value is handed back to cffi"""
+    if d is None:
+        return 'native'
+    k, v, T = d
+    if rnd.random() < 0.5:
+        return 'native'
+    if k == 'int':
+        return rnd.choice(['cdata'] + (['bool'] if v in (0, 1) and not T.startswith('enum') else []))
+    if k == 'bool':
+        return rnd.choice(['cdata', 'int'])
+    if k in ('bytes', 'str'):
+        return 'cdata'
+    if k == 'float':
+        x = float.fromhex(v)
+        return rnd.choice(['cdata'] + (['int'] if x == int(x) and abs(x) < 2 ** 53 else []))
+    if k == 'ptr':
+        return 'null' if v == 0 else 'native'
+    if k == 'struct':
+        if T.startswith('union'):
+            return 'dict'
+        if partial_ok and rnd.random() < 0.4:
+            # an initializer that names only the first n fields: the others are zero, as with
+            # ffi.new() and with by-value struct arguments
+            return '%s:%d' % (rnd.choice(['pdict', 'plist']), rnd.randrange(len(AGGS[T])))
+        return rnd.choice(['dict', 'list', 'tuple'])
+    return 'native'
+
+
+def effective(d, form):
+    """the C value that descriptor d handed over in `form` stands for"""
+    if d is not None and form.startswith(('pdict:', 'plist:')):
+        n = int(form[6:])
+        z = zero_of(d[2])[1]
+        return ['struct', list(d[1][:n]) + z[n:], d[2]]
+    return d
+
+
+def gen_bad(rnd, T, early_only=False):
+    """descriptor of a Python value that cannot be converted to T.  early_only (for onerror): only
+    values that cffi rejects before it writes anything"""
+    if T == 'void':
+        return rnd.choice([['str', 'not none'], ['int', 0], ['object']])
+    # (None returned by onerror means 'no value', it is not an unconvertible value there)
+    o = [['object']] + ([] if early_only else [['none']])
+    if T in INTD:
+        lo, hi = gen.int_range(*INTD[T])
+        o += [['int', hi + 1], ['int', lo - 1], ['int', hi + 1], ['int', lo - 1],
+              ['int', rnd.choice([2 ** 64, -2 ** 63 - 1, 2 ** 200, hi + 1 + rnd.randrange(1000),
+                                  lo - 1 - rnd.randrange(1000)])],
+              ['float', 1.5], ['str', '7']]
+    elif T == '_Bool':
+        o += [['int', 2], ['int', -1], ['int', 256], ['str', 'x']]
+    elif T == 'char':
+        o += [['bytes', '4142'], ['bytes', ''], ['int', 65], ['str', 'a']]
+    elif T in WCHARS:
+        o += [['str', 'ab'], ['str', ''], ['bytes', '41'], ['int', 65]]
+        if WCHARS[T] == 2:
+            o += [['str', u'\U0001f600']]
+    elif T in FLOATS or T in COMPLEX:
+        o += [['str', '1.5'], ['bytes', '00']]
+    elif T in PTRS:
+        o += [['int', 12345], ['str', 'p'], ['float', 0.0]]
+        if T in ('int *', 'struct pt *'):
+            o += [['wrongptr', 8, 'struct pt *' if T == 'int *' else 'int *']]
+    elif T in AGGS:
+        o += [['int', 5], ['badkey', T], ['wrongstruct', 'struct fl' if T != 'struct fl' else 'struct sm']]
+        if not T.startswith('union') and not early_only:
+            o += [['toolong', T], ['partial', T], ['partial', T]]
+    return rnd.choice(o)
+
+
+def gen_call(rnd, s, body, may_nest=True):
+    R = s['ret']
+    c = {'args': [gen_val(rnd, a) for a in s['args']], 'body': body, 'flav': '',
+         'ret': None if R == 'void' else gen_val(rnd, R), 'bad': None, 'nest': None}
+    c['retform'] = gen_form(rnd, c['ret'], partial_ok=True)
+    if body == 'raises':
+        c['flav'] = rnd.choice(['exc', 'exc', 'base'])
+    elif body == 'badreturn':
+        c['bad'] = gen_bad(rnd, R)
+        c['flav'] = c['bad'][0]
+    elif body == 'badarg':
+        wide = [i for i, a in enumerate(s['args']) if WCHARS.get(a) == 4]
+        i = rnd.choice(wide)
+        c['args'][i] = ['wcast', rnd.choice([0x110000, 0xFFFFFFFF, 0x7FFFFFFF,
+                                             rnd.randrange(0x110000, 2 ** 32)]), s['args'][i]]
+    if may_nest and rnd.random() < 0.1:
+        c['nest'] = gen_call(rnd, s, rnd.choice(['normal', 'normal', 'raises', 'badreturn']), False)
+    return c
+
+
+def gen_items(ctx, rng, s):
+    R = s['ret']
+    items = []
+    for kind in ('callback', 'externpy'):
+        if kind == 'callback' and noffi(s):
+            ctx.count('callback_signatures_unsupported_by_libffi_skipped')
+            continue
+        combos = [('normal', 'noerror')]
+        combos += [('normal', c) for c in CONFS[1:] if rng.random() < 0.25]
+        combos += [(b, c) for b in ('raises', 'badreturn') for c in CONFS]
+        if any(WCHARS.get(a) == 4 for a in s['args']):
+            combos += [('badarg', c) for c in rng.sample(CONFS, 3)]
+        for (body, conf) in combos:
+            it = {'k': s['k'], 'kind': kind, 'conf': conf}
+            if kind == 'callback':
+                it['entry'] = rng.choice(CB_ENTRIES)
+                it['via'] = 'py' if rng.random() < 0.15 else 'c'
+                if (it['via'] == 'py' and libffi_call_bug(s, 0)) or \
+                        (it['entry'].startswith('inline') and libffi_call_bug(s, 1)):
+                    ctx.count('calls_from_python_avoided_for_libffi_3_4_2_bug')
+                    it['entry'], it['via'] = 'direct', 'c'
+            else:
+                it['entry'] = rng.choice(EP_ENTRIES)
+                it['via'] = 'direct' if (rng.random() < 0.15 and not noffi(s)) else 'c'
+                if it['via'] == 'direct' and libffi_call_bug(s, 0):
+                    ctx.count('calls_from_python_avoided_for_libffi_3_4_2_bug')
+                    it['via'] = 'c'
+            it['use_err'] = R != 'void' and (conf == 'error' or
+                                             (conf != 'noerror' and rng.random() < 0.5))
+            it['err'] = None if R == 'void' else gen_val(rng, R)
+            it['errform'] = gen_form(rng, it['err'], partial_ok=True)
+            it['oev'] = None if R == 'void' else gen_val(rng, R)
+            it['oevform'] = gen_form(rng, it['oev'])
+            it['obad'] = gen_bad(rng, R, early_only=True)
+            calls = [gen_call(rng, s, body)]
+            if rng.random() < 0.25:
+                others = ['normal', 'normal', 'raises', 'badreturn']
+                for _ in range(rng.choice([1, 1, 2])):
+                    calls.append(gen_call(rng, s, rng.choice(others), False))
+            it['calls'] = calls
+            items.append(it)
+    return items
 
 
 def generate(ctx):
     rng = ctx.rng('gen')
-    nmod = ctx.scale(3, 100)
+    nmod = ctx.scale(4, 100)
     nsig = 30
     d = os.path.join(ctx.tmp, 'mods')
     specs, cases = [], []
+    sysall = list(ALLT) + ['void']
     for m in range(nmod):
         seed = rng.getrandbits(40)
         name = '_c14_%d' % m
-        spec, sigs = module_spec(d, seed, nsig, name)
+        sysl = sysall[m::NSYS_MODS] if m < NSYS_MODS else []
+        spec, sigs = module_spec(d, seed, nsig, name, sysl)
         specs.append(spec)
         plan = []
         for s in sigs:
-            for kind in ('callback', 'externpy'):
-                if kind == 'callback' and any(t.startswith('union') for t in s['args'] + [s['ret']]):
-                    # ffi.callback() goes through libffi, which has no by-value unions
-                    # (documented NotImplementedError); extern "Python" supports them
-                    ctx.count('callback_signatures_with_union_skipped')
-                    continue
-                for (body, conf) in SCEN:
-                    if body == 'normal' and conf != 'noerror' and rng.random() < 0.5:
-                        continue
-                    args = [gen_val(rng, a) for a in s['args']]
-                    ret = None if s['ret'] == 'void' else gen_val(rng, s['ret'])
-                    err = None if s['ret'] == 'void' else gen_val(rng, s['ret'])
-                    oev = None if s['ret'] == 'void' else gen_val(rng, s['ret'])
-                    plan.append([s['k'], kind, body, conf, args, ret, err, oev])
-        cases.append({'mod': name, 'seed': seed, 'nsig': nsig, 'plan': plan})
+            plan += gen_items(ctx, rng, s)
+        cases.append({'mod': name, 'seed': seed, 'nsig': nsig, 'sys': sysl, 'plan': plan})
     res = modbuild.build_modules(ctx, specs)
     for c in cases:
         if not res[c['mod']]['ok']:
@@ -156,37 +394,113 @@ def generate(ctx):
     return {'dir': d}, cases
 
 
+# ---------------------------------------------------------------------------
+# child side
+
 def child_setup(setup, wd):
     sys.path.insert(0, setup['dir'])
     sys.stderr = open(os.devnull, 'w')
-    return {'dir': setup['dir']}
+    return {'dir': setup['dir'], 'iffi': None, 'itramp': {}}
 
 
-def to_py(ffi, d):
-    k, v = d[0], d[1]
+def inline_ffi(st):
+    if st['iffi'] is None:
+        import cffi
+        st['iffi'] = cffi.FFI()
+        st['iffi'].cdef(STRUCT)
+    return st['iffi']
+
+
+def agg_init(T, vals, form):
+    """initializer (dict / list / tuple) of aggregate T from its field values"""
+    out = []
+    for (fn, ft, fk), v in zip(AGGS[T], vals):
+        out.append(agg_init(ft, v, form) if fk == 'S' else v)
+    if form == 'list':
+        return out
+    if form == 'tuple':
+        return tuple(out)
+    return dict((f[0], x) for f, x in zip(AGGS[T], out))
+
+
+def agg_read(x, T):
+    out = []
+    for fn, ft, fk in AGGS[T]:
+        v = getattr(x, fn)
+        if fk == 'S':
+            v = agg_read(v, ft)
+        elif isinstance(fk, int) or fk.startswith('A:'):
+            v = list(v)
+        out.append(v)
+    return out
+
+
+def to_py(F, d, form='native'):
+    k, v, T = d
+    if k == 'int':
+        return F.cast(T, v) if form == 'cdata' else (bool(v) if form == 'bool' else v)
+    if k == 'bool':
+        return F.cast(T, v) if form == 'cdata' else (int(v) if form == 'int' else v)
     if k == 'str':
-        return v
-    if k == 'int' or k == 'bool':
-        return v
+        return F.cast(T, v) if form == 'cdata' else v
     if k == 'bytes':
-        return bytes.fromhex(v)
+        return F.cast(T, bytes.fromhex(v)) if form == 'cdata' else bytes.fromhex(v)
     if k == 'float':
-        return float.fromhex(v)
+        x = float.fromhex(v)
+        return F.cast(T, x) if form == 'cdata' else (int(x) if form == 'int' else x)
+    if k == 'complex':
+        return complex(float.fromhex(v[0]), float.fromhex(v[1]))
     if k == 'ptr':
-        return ffi.cast('int *', v)
+        return F.NULL if form == 'null' else F.cast(T, v)
+    if k == 'wcast':
+        return F.cast(T, v)
     if k == 'struct':
-        T = d[2]
-        return ffi.new(T + ' *', dict((f[0], x) for f, x in zip(AGGS[T], v)))[0]
+        if form in ('dict', 'list', 'tuple'):
+            return agg_init(T, v, form)
+        if form.startswith('plist:'):
+            return agg_init(T, v, 'list')[:int(form[6:])]
+        if form.startswith('pdict:'):
+            full = agg_init(T, v, 'dict')
+            return dict((f[0], full[f[0]]) for f in AGGS[T][:int(form[6:])])
+        return F.new(T + ' *', agg_init(T, v, 'dict'))[0]
+    raise ValueError(k)
 
 
-def norm(ffi, x):
-    if isinstance(x, ffi.CData):
-        t = ffi.typeof(x)
-        if t.kind == 'pointer':
-            return ['ptr', int(ffi.cast('uintptr_t', x))]
+def to_bad(F, b):
+    k = b[0]
+    if k == 'object':
+        return object()
+    if k == 'none':
+        return None
+    if k in ('int', 'str'):
+        return b[1]
+    if k == 'float':
+        return float(b[1])
+    if k == 'bytes':
+        return bytes.fromhex(b[1])
+    if k == 'wrongptr':
+        return F.cast(b[2], b[1])
+    if k == 'badkey':
+        return {'no_such_field': 1}
+    if k == 'wrongstruct':
+        return F.new(b[1] + ' *')[0]
+    if k == 'toolong':
+        return [0] * (len(AGGS[b[1]]) + 1)
+    if k == 'partial':      # first field fine, second one rejected
+        f = AGGS[b[1]]
+        first = 1 if f[0][2] in ('i', 'f') or f[0][2].startswith('B:') else \
+            agg_init(b[1], zero_of(b[1])[1], 'dict')[f[0][0]]
+        return {f[0][0]: first, f[1][0]: object()}
+    raise ValueError(k)
+
+
+def norm(F, x):
+    if isinstance(x, F.CData):
+        t = F.typeof(x)
+        if t.kind in ('pointer', 'function'):
+            return ['ptr', int(F.cast('uintptr_t', x))]
         if t.kind in ('struct', 'union'):
-            return ['struct', [getattr(x, fn) if not isinstance(fk, int) else list(getattr(x, fn))
-                               for fn, ft, fk in AGGS[t.cname]], t.cname]
+            return ['struct', agg_read(x, t.cname), t.cname]
         if t.kind == 'primitive' and t.cname == 'long double':
             return ['float', float(x).hex()]
         return ['cdata', repr(x)]
@@ -196,6 +510,8 @@ def norm(ffi, x):
         return ['int', x]
     if isinstance(x, float):
         return ['float', x.hex()]
+    if isinstance(x, complex):
+        return ['complex', [x.real.hex(), x.imag.hex()]]
     if isinstance(x, bytes):
         return ['bytes', x.hex()]
     if isinstance(x, str):
@@ -205,23 +521,36 @@ def norm(ffi, x):
     return ['other', repr(x)]
 
 
+def zero_field(ft, fk):
+    if fk == 'f':
+        return 0.0
+    if isinstance(fk, int):
+        return [0] * fk
+    if fk == 'S':
+        return [zero_field(t, kk) for (_, t, kk) in AGGS[ft]]
+    if fk.startswith('A:'):
+        return [0] * int(fk[2:])
+    return 0
+
+
 def zero_of(T):
     if T == 'void':
         return None
     if T == '_Bool':
-        return ['bool', False]
+        return ['bool', False, T]
     if T == 'char':
-        return ['bytes', '00']
-    if T in ('float', 'double', 'long double'):
-        return ['float', (0.0).hex()]
-    if T == 'int *':
-        return ['ptr', 0]
-    if T == 'wchar_t':
-        return ['str', u'\x00']
+        return ['bytes', '00', T]
+    if T in FLOATS:
+        return ['float', (0.0).hex(), T]
+    if T in COMPLEX:
+        return ['complex', [(0.0).hex(), (0.0).hex()], T]
+    if T in PTRS:
+        return ['ptr', 0, T]
+    if T in WCHARS:
+        return ['str', u'\x00', T]
     if T in AGGS:
-        return ['struct', [0 if fk == 'i' else (0.0 if fk == 'f' else [0] * fk)
-                           for fn, ft, fk in AGGS[T]], T]
-    return ['int', 0]
+        return ['struct', [zero_field(ft, fk) for fn, ft, fk in AGGS[T]], T]
+    return ['int', 0, T]
 
 
 def same(a, b):
@@ -233,110 +562,291 @@ def same(a, b):
         return list(a[1]) == list(b[1]) and a[2] == b[2]
     if a[0] == 'float' and b[0] == 'float':
         return float.fromhex(a[1]) == float.fromhex(b[1])
-    return list(a) == list(b)
+    if a[0] == 'complex' and b[0] == 'complex':
+        return [float.fromhex(z) for z in a[1]] == [float.fromhex(z) for z in b[1]]
+    return list(a[:2]) == list(b[:2])
 
 
 class Boom(Exception):
     pass
 
 
+class BoomBase(BaseException):
+    pass
+
+
+class HarnessError(Exception):
+    pass
+
+
+def run_item(st, rep, mod, sigs, it):
+    ffi, lib = mod.ffi, mod.lib
+    k, kind, conf, entry, via = it['k'], it['kind'], it['conf'], it['entry'], it['via']
+    s = sigs[k]
+    R = s['ret']
+    sigstr = '%s(%s)' % (R, ', '.join(s['args']))
+    ptrsig = '%s(*)(%s)' % (R, ', '.join(s['args']))
+    inline = entry.startswith('inline')
+    F = inline_ffi(st) if inline else ffi
+    unraisable = st['unraisable']
+    del unraisable[:]
+    onerr_calls = []
+    active = []
+
+    # ---- everything the Python side hands to cffi is prepared up front, so that a mistake of
+    # ---- the harness cannot be mistaken for an error raised inside the callback
+    def prepare(c):
+        c['pyargs'] = [to_py(F, a) for a in c['args']]
+        c['mkret'] = None
+        if c['body'] == 'badreturn':
+            c['mkret'] = lambda: to_bad(F, c['bad'])
+        elif R != 'void':
+            c['mkret'] = lambda: to_py(F, c['ret'], c['retform'])
+        if c['mkret']:
+            c['mkret']()
+        c['seen'] = []
+        c['nested_done'] = False
+        if c['nest']:
+            prepare(c['nest'])
+    try:
+        for c in it['calls']:
+            prepare(c)
+        kw = {}
+        if it['use_err']:
+            kw['error'] = to_py(F, it['err'], it['errform'])
+        if conf == 'onerror_value' and R != 'void':
+            to_py(F, it['oev'], it['oevform'])
+        if conf == 'onerror_bad':
+            to_bad(F, it['obad'])
+    except Exception as e:
+        rep.bad('harness:prepare', 'harness error preparing %s: %s: %s' % (sigstr, type(e).__name__, e), it)
+        return
+
+    def invoke(c):
+        c['u0'], c['o0'] = len(unraisable), len(onerr_calls)
+        active.append(c)
+        try:
+            c['got'] = norm(F, tramp(*c['pyargs']))
+            c['escaped'] = None
+        except BaseException as e:
+            c['got'], c['escaped'] = None, '%s: %s' % (type(e).__name__, str(e)[:200])
+        finally:
+            active.pop()
+        c['u1'], c['o1'] = len(unraisable), len(onerr_calls)
+
+    def f(*a):
+        c = active[-1]
+        c['seen'].append([norm(F, x) for x in a])
+        if c['nest'] and not c['nested_done']:
+            c['nested_done'] = True
+            invoke(c['nest'])
+        if c['body'] == 'raises':
+            c['raised'] = (Boom if c['flav'] == 'exc' else BoomBase)(k)
+            raise c['raised']
+        return c['mkret']() if c['mkret'] else None
+
+    def onerror(exc, val, tb):
+        onerr_calls.append((exc, val, tb))
+        if conf == 'onerror_raises':
+            raise KeyError('in onerror')
+        if conf == 'onerror_value' and R != 'void':
+            return to_py(F, it['oev'], it['oevform'])
+        if conf == 'onerror_bad':
+            return to_bad(F, it['obad'])
+        return None
+    if conf.startswith('onerror'):
+        kw['onerror'] = onerror
+
+    # ---- entry point
+    try:
+        if kind == 'callback':
+            if entry in ('direct', 'inline'):
+                cb = F.callback(sigstr, f, **kw)
+            elif entry in ('deco', 'inline_deco'):
+                cb = F.callback(sigstr, **kw)(f)
+            elif entry == 'ptrsig':
+                cb = F.callback(ptrsig, f, **kw)
+            elif entry == 'ctype':
+                cb = F.callback(F.typeof(ptrsig), f, **kw)
+            elif entry == 'positional':
+                cb = F.callback(sigstr, f, kw.get('error'), kw.get('onerror'))
+            else:
+                raise HarnessError(entry)
+            if via == 'py':
+                tramp = cb
+            elif inline:
+                itype = '%s(*)(%s%s%s)' % (R, '%s(*)(%s)' % (R, ', '.join(s['args']) or 'void'),
+                                           ', ' if s['args'] else '', ', '.join(s['args']))
+                ifn = F.cast(itype, int(ffi.cast('uintptr_t', ffi.addressof(lib, 'call_%d' % k))))
+                tramp = lambda *a: ifn(cb, *a)
+            else:
+                ctramp = getattr(lib, 'call_%d' % k)
+                tramp = lambda *a: ctramp(cb, *a)
+        else:
+            if entry == 'name':
+                ffi.def_extern(name='ep_%d' % k, **kw)(f)
+            elif entry == 'noname':
+                f.__name__ = 'ep_%d' % k
+                ffi.def_extern(**kw)(f)
+            elif entry == 'positional':
+                ffi.def_extern('ep_%d' % k, kw.get('error'), kw.get('onerror'))(f)
+            else:
+                raise HarnessError(entry)
+            tramp = getattr(lib, ('callep_%d' if via == 'c' else 'ep_%d') % k)
+    except HarnessError as e:
+        rep.bad('harness:entry', 'unknown entry %s' % e, it)
+        return
+    except BaseException as e:
+        rep.case((sigstr, kind, entry, 'creation'), nontrivial=True)
+        rep.bad('callback-creation-failed:' + kind, '%s entry=%s kw=%s: %s: %s' %
+                (sigstr, entry, sorted(kw), type(e).__name__, str(e)[:300]), it)
+        return
+    rep.stat('entry_%s_%s' % (kind, entry))
+    rep.stat('via_%s_%s' % (kind, via))
+    rep.stat('decl_' + s['decl'] if kind == 'externpy' else 'sigs_callback')
+    if it['use_err'] and conf.startswith('onerror'):
+        rep.stat('error_value_next_to_onerror')
+    if it['use_err']:
+        rep.stat('errform_' + it['errform'].split(':')[0])
+    if len(it['calls']) > 1:
+        rep.stat('items_with_repeated_invocations')
+
+    for ci, c in enumerate(it['calls']):
+        invoke(c)
+        judge_call(rep, it, s, sigstr, c, ci, unraisable, onerr_calls, None)
+        if c['nest']:
+            if c['seen'] and 'got' in c['nest']:
+                rep.stat('nested_invocations')
+                judge_call(rep, it, s, sigstr, c['nest'], ci, unraisable, onerr_calls, c)
+            elif c['seen']:
+                rep.bad('harness:nest', 'nested call not performed', it)
+
+
+def judge_call(rep, it, s, sigstr, c, ci, unraisable, onerr_calls, outer):
+    kind, conf, R = it['kind'], it['conf'], s['ret']
+    body = c['body']
+    tagb = body if body in ('normal', 'badarg') else body + '-' + c['flav']
+    rep.case((sigstr, kind, it['entry'], it['via'], tagb, conf, it['use_err'], repr(c['args']),
+              ci, outer is not None),
+             nontrivial=bool(c['args']) or R != 'void',
+             sample={'sig': sigstr, 'kind': kind, 'entry': it['entry'], 'via': it['via'],
+                     'body': tagb, 'conf': conf, 'args': repr(c['args'])[:120]})
+    rep.stat('%s_%s_%s' % (kind, body, conf))
+    if body == 'normal':
+        rep.stat('retform_' + c['retform'].split(':')[0])
+    elif body == 'badreturn':
+        rep.stat('badreturn_' + c['flav'])
+    elif body == 'raises':
+        rep.stat('raises_' + c['flav'])
+    if ci > 0:
+        rep.stat('invocation_%s_after_%s' % ('ok' if body == 'normal' else 'failing',
+                                             'ok' if it['calls'][ci - 1]['body'] == 'normal' else 'failing'))
+    if outer is not None:
+        rep.stat('nested_%s_in_%s' % ('ok' if body == 'normal' else 'failing',
+                                      'ok' if outer['body'] == 'normal' else 'failing'))
+    tag = '%s/%s entry=%s via=%s call#%d%s' % (tagb, conf, it['entry'], it['via'], ci,
+                                               ' (nested)' if outer is not None else '')
+    # replay detail: this call only (with its outer call when nested)
+    d = dict((k_, v_) for k_, v_ in it.items() if k_ != 'calls')
+    d['calls'] = [strip(x) for x in it['calls'][:ci + 1]]
+    if c['escaped']:
+        rep.bad('exception-escaped-into-caller:' + kind, '%s %s: %s escaped from the call' %
+                (sigstr, tag, c['escaped']), d)
+        return
+    want_seen = 0 if body == 'badarg' else 1
+    if len(c['seen']) != want_seen:
+        rep.bad('python-function-call-count:' + kind, '%s %s: Python function ran %d times' %
+                (sigstr, tag, len(c['seen'])), d)
+        return
+    if want_seen and (len(c['seen'][0]) != len(c['args']) or
+                      not all(same(x, y) for x, y in zip(c['seen'][0], c['args']))):
+        rep.bad('arguments-differ:' + kind, '%s %s: passed %r, Python function received %r' %
+                (sigstr, tag, c['args'], c['seen'][0]), d)
+    # reports that belong to this call (not to the nested one)
+    n = c['nest'] if (c['nest'] and 'u0' in c['nest']) else None
+    own_u = [unraisable[i] for i in range(c['u0'], c['u1']) if not (n and n['u0'] <= i < n['u1'])]
+    own_o = [onerr_calls[i] for i in range(c['o0'], c['o1']) if not (n and n['o0'] <= i < n['o1'])]
+    g = c['got']
+    if body == 'normal':
+        if not same(g, effective(c['ret'], c['retform'])):
+            partial = c['retform'].startswith(('pdict:', 'plist:'))
+            rep.bad(('partial-initializer-result-indeterminate:' if partial else 'result-differs:') + kind,
+                    '%s %s: Python returned %r (as %s), C caller received %r' %
+                    (sigstr, tag, c['ret'], c['retform'], g), d)
+        if own_u or own_o:
+            rep.bad('spurious-error-report:' + kind, '%s %s: normal call reported %r %r' %
+                    (sigstr, tag, [type(x).__name__ for x in own_u], [x[0].__name__ for x in own_o]), d)
+        return
+    # failing calls: expected value at the C caller
+    if R == 'void':
+        exp = None
+    elif conf == 'onerror_value':
+        exp = it['oev']
+    elif it['use_err']:
+        exp = effective(it['err'], it['errform'])
+    else:
+        exp = zero_of(R)
+    if not same(g, exp):
+        rep.bad('error-value-differs:%s:%s' % (kind, conf), '%s %s: C caller received %r, '
+                'expected %r (error=%r, bad value %r)' % (sigstr, tag, g, exp,
+                                                           it['use_err'] and it['err'], c['bad']), d)
+    raised = c.get('raised')
+    if conf.startswith('onerror'):
+        if len(own_o) != 1:
+            rep.bad('onerror-call-count:' + kind, '%s %s: onerror ran %d times' %
+                    (sigstr, tag, len(own_o)), d)
+        else:
+            exc, val, tb = own_o[0]
+            ok = isinstance(exc, type) and isinstance(val, BaseException) and type(val) is exc
+            if body == 'raises':
+                ok = ok and val is raised and tb is not None and type(tb).__name__ == 'traceback'
+            if not ok:
+                rep.bad('onerror-arguments:' + kind, '%s %s: onerror received (%r, %r, %r), raised '
+                        'was %r' % (sigstr, tag, exc, val, tb, raised), d)
+        if conf in ('onerror_value', 'onerror_none'):
+            if own_u:
+                rep.bad('spurious-error-report:' + kind, '%s %s: the error was handled by onerror '
+                        'but sys.unraisablehook received %r' %
+                        (sigstr, tag, [type(x).__name__ for x in own_u]), d)
+        elif not own_u:
+            rep.bad('error-not-reported:' + kind, '%s %s: the exception raised / caused by '
+                    'onerror itself was not given to sys.unraisablehook' % (sigstr, tag), d)
+    else:
+        if not own_u:
+            rep.bad('error-not-reported:' + kind, '%s %s: the exception was neither given to '
+                    'sys.unraisablehook nor to onerror' % (sigstr, tag), d)
+        elif body == 'raises' and not any(x is raised for x in own_u):
+            rep.bad('error-report-wrong-exception:' + kind, '%s %s: sys.unraisablehook received '
+                    '%r, raised was %r' % (sigstr, tag, own_u, raised), d)
+
+
+def strip(c):
+    out = dict((k, c[k]) for k in ('args', 'body', 'flav', 'ret', 'bad', 'retform'))
+    out['nest'] = strip(c['nest']) if c.get('nest') else None
+    return out
+
+
+# The wrapper that cffi generates for an API-mode C function with a complex argument uses
+# _cffi_type(<canonical slot of the complex type>), but lib.<function> only realizes the
+# function's own (inlined) argument slots: calling such a function before anything else realized
+# the canonical slot crashes.  That is a defect of the plain function call path (C05's subject,
+# reported there), not of callbacks; the trampolines of this check must not trip over it, so the
+# two complex types are realized through functions that return them.
+PREREALIZE = ('c14_rfc', 'c14_rdc')
+
+
 def child_case(st, case):
     import importlib
     rep = core.ChildRep()
     mod = importlib.import_module(case['mod'])
-    ffi, lib = mod.ffi, mod.lib
-    spec, sigs = module_spec(st['dir'], case['seed'], case['nsig'], case['mod'])
-    unraisable = []
-    sys.unraisablehook = lambda u: unraisable.append(type(u.exc_value).__name__)
-    for k, kind, body, conf, args, ret, err, oev in case['plan']:
-        s = sigs[k]
-        R = s['ret']
-        sigstr = '%s(%s)' % (R, ', '.join(s['args']))
-        seen = []
-        onerr_calls = []
-
-        def f(*a):
-            seen.append([norm(ffi, x) for x in a])
-            if body == 'raises':
-                raise Boom(k)
-            if body == 'badreturn' and R != 'void':
-                return object()
-            if body == 'badreturn':
-                return 'not none'     # void callbacks must return None
-            return None if R == 'void' else to_py(ffi, ret)
-
-        def onerror(exc, val, tb):
-            onerr_calls.append(exc.__name__)
-            if conf == 'onerror_raises':
-                raise KeyError('in onerror')
-            if conf == 'onerror_value' and R != 'void':
-                return to_py(ffi, oev)
-            return None
-        kw = {}
-        if conf in ('error', 'onerror_none', 'onerror_raises') and R != 'void' and \
-                (conf == 'error' or random.Random(k).random() < 0.5):
-            kw['error'] = to_py(ffi, err)
-        if conf.startswith('onerror'):
-            kw['onerror'] = onerror
-        del unraisable[:]
-        detail = [k, kind, body, conf, args, ret, err, oev]
-        try:
-            pyargs = [to_py(ffi, a) for a in args]
-            if kind == 'callback':
-                cb = ffi.callback(sigstr, f, **kw)
-                got = getattr(lib, 'call_%d' % k)(cb, *pyargs)
-            else:
-                ffi.def_extern(name='ep_%d' % k, **kw)(f)
-                got = getattr(lib, 'callep_%d' % k)(*pyargs)
-            escaped = None
-        except BaseException as e:
-            got, escaped = None, type(e).__name__
-        rep.case((sigstr, kind, body, conf, repr(args)), nontrivial=bool(args) or R != 'void',
-                 sample={'sig': sigstr, 'kind': kind, 'body': body, 'conf': conf,
-                         'args': repr(args)[:120]})
-        rep.stat('%s_%s_%s' % (kind, body, conf))
-        tag = '%s:%s' % (kind, body if body == 'normal' else body + '/' + conf)
-        if escaped:
-            rep.bad('exception-escaped-into-caller:' + kind, '%s %s: %s escaped from the C '
-                    'trampoline call' % (sigstr, tag, escaped), detail)
-            continue
-        if len(seen) != 1:
-            rep.bad('python-function-call-count:' + kind, '%s: Python function ran %d times' %
-                    (sigstr, len(seen)), detail)
-            continue
-        if not all(same(x, y) for x, y in zip(seen[0], args)) or len(seen[0]) != len(args):
-            rep.bad('arguments-differ:' + kind, '%s: passed %r, Python function received %r' %
-                    (sigstr, args, seen[0]), detail)
-        g = norm(ffi, got)
-        failing = body != 'normal'
-        if not failing:
-            if not same(g, ret):
-                rep.bad('result-differs:' + kind, '%s: Python returned %r, C caller received %r' %
-                        (sigstr, ret, g), detail)
-            if unraisable or onerr_calls:
-                rep.bad('spurious-error-report:' + kind, '%s normal call reported %r %r' %
-                        (sigstr, unraisable, onerr_calls), detail)
-            continue
-        # failing bodies: expected value at the C caller
-        if R == 'void':
-            exp = None
-        elif conf == 'onerror_value':
-            exp = oev
-        elif 'error' in kw:
-            exp = err
-        else:
-            exp = zero_of(R)
-        if not same(g, exp):
-            rep.bad('error-value-differs:%s:%s' % (kind, conf), '%s %s: C caller received %r, '
-                    'expected %r (error=%r)' % (sigstr, tag, g, exp, kw.get('error') is not None and err),
-                    detail)
-        if conf.startswith('onerror'):
-            if len(onerr_calls) != 1:
-                rep.bad('onerror-call-count:' + kind, '%s %s: onerror ran %d times' %
-                        (sigstr, tag, len(onerr_calls)), detail)
-        elif not unraisable:
-            rep.bad('error-not-reported:' + kind, '%s %s: the exception was neither given to '
-                    'sys.unraisablehook nor to onerror' % (sigstr, tag), detail)
+    for name in PREREALIZE:
+        getattr(mod.lib, name)
+    spec, sigs = module_spec(st['dir'], case['seed'], case['nsig'], case['mod'], case.get('sys', ()))
+    st['unraisable'] = []
+    sys.unraisablehook = lambda u: st['unraisable'].append(u.exc_value)
+    for it in case['plan']:
+        run_item(st, rep, mod, sigs, it)
+    del st['unraisable'][:]
     return rep.result()
 
 
@@ -350,7 +860,7 @@ def judge(ctx, setup, case, obs):
 
 def replay_setup(ctx, case):
     d = os.path.join(ctx.tmp, 'mods')
-    spec, sigs = module_spec(d, case['seed'], case['nsig'], case['mod'])
+    spec, sigs = module_spec(d, case['seed'], case['nsig'], case['mod'], case.get('sys', ()))
     res = modbuild.build_modules(ctx, [spec])
     if not res[case['mod']]['ok']:
         raise core.Inconclusive('module build failed')
